@@ -49,12 +49,13 @@ def build_columns(case):
     """One Python object per table entry (cached per (index, definition) while unmodified)."""
     o = _orso()
     objs = []
+    edited = any(op[0] == "edit" for op in case["prog"])  # objects that get edited are never shared between cases
     for idx, spec in enumerate(case["cols"]):
         ident, name, aliases = spec[0], spec[1], spec[2]
         kind = spec[3] if len(spec) > 3 else "flat"
         extras = spec[4] if len(spec) > 4 else None
         key = None
-        if ident is not None:
+        if ident is not None and not edited:
             key = (idx, ident, name, None if aliases is None else tuple(aliases), kind, repr(sorted(extras.items())) if extras else None)
             c = _COL_CACHE.get(key)
             if c is not None:
@@ -144,6 +145,120 @@ def resolve_prog(case, objs):
     return out
 
 
+# ----------------------------------------------------------------------------- every syntactic form of the sum
+
+# `["add", i, j]` is `regs[i] + regs[j]`; `["add", i, j, form]` writes the same sum another way.  Whatever the form, the
+# statement is the same: a new schema, both operands as they were (the model knows one sum only).
+SUM_FORMS = ("+", "__add__", "operator.add", "+=", "operator.iadd", "__iadd__", "reduce.add", "reduce.iadd", "sum", "__radd__", "fold+=")
+
+
+def do_sum(a, b, form):
+    import functools
+    import operator
+
+    if form == "+":
+        return a + b
+    if form == "__add__":
+        return a.__add__(b)
+    if form == "operator.add":
+        return operator.add(a, b)
+    if form == "+=":
+        total = a  # the left operand is still referenced elsewhere (the register)
+        total += b
+        return total
+    if form == "operator.iadd":
+        return operator.iadd(a, b)
+    if form == "__iadd__":
+        f = getattr(type(a), "__iadd__", None)
+        r = f(a, b) if f is not None else NotImplemented
+        return a + b if r is NotImplemented else r
+    if form == "reduce.add":
+        return functools.reduce(operator.add, [a, b])
+    if form == "reduce.iadd":
+        return functools.reduce(operator.iadd, [a, b])
+    if form == "sum":
+        return sum([b], a)
+    if form == "__radd__":
+        f = getattr(type(b), "__radd__", None)
+        r = f(b, a) if f is not None else NotImplemented
+        return a + b if r is NotImplemented else r
+    if form == "fold+=":
+        total = None
+        for part in (a, b):  # total = parts[0]; for part in parts[1:]: total += part
+            if total is None:
+                total = part
+            else:
+                total += part
+        return total
+    raise InfraError("unknown form of the sum %r" % (form,))
+
+
+# ----------------------------------------------------------------------------- edits of a column object
+
+# `["edit", t, how, arg]`: the caller changes column object t between two operations -- the alias list in place (the very
+# same list object afterwards), by replacement, or the name.  The column's state is its current name + current aliases.
+EDITS_IN_PLACE = ("append", "remove", "insert", "setitem", "delitem", "clear", "extend", "reverse")
+EDITS = EDITS_IN_PLACE + ("replace", "rename")
+
+
+def edit_spec(name, aliases, how, arg):
+    """(name, aliases) after the edit -- the specification (aliases is a list here for every in-place edit)"""
+    if how == "rename":
+        return arg, aliases
+    if how == "replace":
+        return name, None if arg is None else list(arg)
+    l = list(aliases)
+    if how == "append":
+        l = l + [arg]
+    elif how == "remove":
+        if arg in l:
+            del l[l.index(arg)]
+    elif how == "insert":
+        l = [arg] + l
+    elif how == "setitem":
+        l = [arg] + l[1:] if l else l
+    elif how == "delitem":
+        l = l[1:]
+    elif how == "clear":
+        l = []
+    elif how == "extend":
+        l = l + list(arg)
+    elif how == "reverse":
+        l = l[::-1]
+    else:
+        raise InfraError("unknown edit %r" % (how,))
+    return name, l
+
+
+def do_edit(c, how, arg):
+    """the edit, on the real object, the way a caller writes it"""
+    if how == "rename":
+        c.name = _fresh(arg)
+    elif how == "replace":
+        c.aliases = None if arg is None else [_fresh(x) for x in arg]
+    elif how == "append":
+        c.aliases.append(_fresh(arg))
+    elif how == "remove":
+        if arg in c.aliases:
+            c.aliases.remove(_fresh(arg))
+    elif how == "insert":
+        c.aliases.insert(0, _fresh(arg))
+    elif how == "setitem":
+        if c.aliases:
+            c.aliases[0] = _fresh(arg)
+    elif how == "delitem":
+        if c.aliases:
+            del c.aliases[0]
+    elif how == "clear":
+        c.aliases.clear()
+    elif how == "extend":
+        c.aliases += [_fresh(x) for x in arg]
+    elif how == "reverse":
+        c.aliases.reverse()
+    else:
+        raise InfraError("unknown edit %r" % (how,))
+
+
 _ALIASES_FIRST = None
 
 
@@ -204,10 +319,11 @@ def execute(case):
     iters = []  # [python iterator, names of its schema when it was obtained, how many it has yielded, register]
     tag_of = {id(c): t for t, c in enumerate(objs)}
     names = [c[1] for c in cols]
-    aliases = [c[2] for c in cols]
+    aliases = [None if c[2] is None else list(c[2]) for c in cols]  # the columns' *current* state: edits move it
     alln = [_all_names_spec(n, a) for n, a in zip(names, aliases)]
     alln_lower = [[x.lower() for x in l] for l in alln]
     alln_fold = [[x.casefold() for x in l] for l in alln]
+    alias_objs = [c.aliases for c in objs]
     regs = [RelationSchema(name=s[0], aliases=list(s[1]), columns=[objs[i] for i in s[2]]) for s in case["schemas"]]
     meta = [(s[0], list(s[1])) for s in case["schemas"]]
     state = [list(s[2]) for s in case["schemas"]]
@@ -285,13 +401,40 @@ def execute(case):
             except Exception as e:
                 outs.append(["raised", type(e).__name__])
                 return fail(n, "%s raised %s" % ("iter(schema)" if kind == "mkiter" else "advancing an iterator", type(e).__name__))
+        elif kind == "edit":
+            target = -1  # a column is not a schema: no schema's column list may move
+            t, how, arg = op[1], op[2], op[3]
+            c = objs[t]
+            res["hits"].append("edit:%s:%s" % (how, "listed-in-%d-schemas" % min(3, sum(1 for st in state if t in st))))
+            if any(rec[3] is not None and t in state[rec[3]] and rec[2] < len(rec[1]) for rec in iters):
+                res["hits"].append("edit:while-an-iterator-over-a-schema-listing-the-column-is-under-way")
+            try:
+                do_edit(c, how, arg)
+            except Exception as e:
+                outs.append(["raised", type(e).__name__])
+                return fail(n, "editing a column raised " + type(e).__name__)
+            names[t], aliases[t] = edit_spec(names[t], aliases[t], how, arg)
+            alln[t] = _all_names_spec(names[t], aliases[t])
+            alln_lower[t] = [x.lower() for x in alln[t]]
+            alln_fold[t] = [x.casefold() for x in alln[t]]
+            if how in EDITS_IN_PLACE and c.aliases is not alias_objs[t]:
+                raise InfraError("an edit in place changed the list object: %r" % (op,))
+            alias_objs[t] = c.aliases
+            if c.name != names[t] or c.aliases != aliases[t]:
+                return fail(n, "an edit of a column did not leave it with the name and aliases written to it")
+            outs.append(["edited"])
         elif kind == "add":
             i, j = op[1], op[2]
+            form = op[3] if len(op) > 3 else "+"
             a, b = regs[i], regs[j]
             A, B = state[i], state[j]
             la, lb = a.columns, b.columns
+            if form != "+":
+                res["hits"].append("add:form:%s%s" % (form, ":right-brings-a-new-identity" if spec_union(A, B, idents) != A else ""))
             try:
-                s = a + b
+                s = do_sum(a, b, form)
+            except InfraError:
+                raise
             except Exception as e:
                 outs.append(["raised", type(e).__name__])
                 return fail(n, "the sum raised " + type(e).__name__)
@@ -307,6 +450,8 @@ def execute(case):
             # modifies neither operand
             if a.columns is not la or b.columns is not lb or tags(a) != A or tags(b) != B:
                 return fail(n, "the sum modified an operand's columns")
+            if regs[i] is not a or regs[j] is not b:
+                raise InfraError("the harness lost an operand")
             if s.columns is la or s.columns is lb:
                 return fail(n, "the sum shares its column list with an operand")
             if s is a or s is b:
@@ -483,6 +628,7 @@ def _other_text_hits(out, kind, key, P, alln, alln_lower, other_text, other_fold
 
 def mirror(case, idents):
     names = [c[1] for c in case["cols"]]
+    aliases = [None if c[2] is None else list(c[2]) for c in case["cols"]]
     alln = [_all_names_spec(c[1], c[2]) for c in case["cols"]]
     regs = [list(s[2]) for s in case["schemas"]]
     meta = [(s[0], list(s[1])) for s in case["schemas"]]
@@ -502,6 +648,12 @@ def mirror(case, idents):
             regs.append(R)
             meta.append(meta[op[1]])
             outs.append(["schema", meta[op[1]][0], list(meta[op[1]][1]), list(R)])
+            continue
+        if kind == "edit":
+            t = op[1]
+            names[t], aliases[t] = edit_spec(names[t], aliases[t], op[2], op[3])
+            alln[t] = _all_names_spec(names[t], aliases[t])
+            outs.append(["edited"])
             continue
         if kind == "mkiter":
             iters.append([[names[t] for t in regs[op[1]]], 0])
@@ -560,13 +712,20 @@ def _strings(case):
     for op in case["prog"]:
         if op[0] in ("find", "col", "pop") and isinstance(op[2], str):
             yield op[2]
+        if op[0] == "edit":
+            if isinstance(op[3], str):
+                yield op[3]
+            elif isinstance(op[3], list):
+                yield from op[3]
 
 
 def model_line(case, idents):
     cols = [[idents[t], c[1], c[2]] for t, c in enumerate(case["cols"])]
     table = sorted({s for s in _strings(case) if not s.isascii()})
     lower = [[s, s.lower()] for s in table]
-    return "C17 run " + wire.line(cols, [list(s) for s in case["schemas"]], [list(op) for op in case["prog"]], lower)
+    # every form of the sum is the one sum of the model
+    prog = [list(op[:3]) if op[0] == "add" else list(op) for op in case["prog"]]
+    return "C17 run " + wire.line(cols, [list(s) for s in case["schemas"]], prog, lower)
 
 
 # ----------------------------------------------------------------------------- validity, evaluation
@@ -601,12 +760,30 @@ def valid_case(c):
                 return False
         nregs = len(c["schemas"])
         niters = 0
+        has_list = [col[2] is not None for col in c["cols"]]
         if not isinstance(c["prog"], list) or not c["prog"]:
             return False
         for op in c["prog"]:
             if not isinstance(op, list) or not op:
                 return False
             k = op[0]
+            if k == "edit":
+                if len(op) != 4 or type(op[1]) is not int or not 0 <= op[1] < n or op[2] not in EDITS:
+                    return False
+                how, arg = op[2], op[3]
+                if how in EDITS_IN_PLACE and not has_list[op[1]]:
+                    return False  # `None.append(x)`: not a legal program
+                if how in ("append", "remove", "insert", "setitem", "rename") and not isinstance(arg, str):
+                    return False
+                if how in ("delitem", "clear", "reverse") and arg is not None:
+                    return False
+                if how == "extend" and not (isinstance(arg, list) and all(isinstance(x, str) for x in arg)):
+                    return False
+                if how == "replace":
+                    if arg is not None and not (isinstance(arg, list) and all(isinstance(x, str) for x in arg)):
+                        return False
+                    has_list[op[1]] = arg is not None
+                continue
             if k == "mkiter":
                 if len(op) != 2 or type(op[1]) is not int or not 0 <= op[1] < nregs:
                     return False
@@ -617,7 +794,9 @@ def valid_case(c):
                     return False
                 continue
             if k == "add":
-                if len(op) != 3 or not all(type(x) is int and 0 <= x < nregs for x in op[1:]):
+                if len(op) not in (3, 4) or not all(type(x) is int and 0 <= x < nregs for x in op[1:3]):
+                    return False
+                if len(op) == 4 and op[3] not in SUM_FORMS:
                     return False
                 nregs += 1
                 continue
@@ -667,7 +846,7 @@ def _hits(ctx, c, raw=None):
             ctx.hit("key-from-an-attribute:%s%s" % (op[2][2].partition("~")[0], ":near-miss" if "~" in op[2][2] else ""))
     for op in c["prog"]:
         k = op[0]
-        if k in ("mkiter", "next", "drain"):
+        if k in ("mkiter", "next", "drain", "edit"):
             ctx.hit("op:" + k)
             continue
         if k == "add" and op[1] < nbase and op[2] < nbase:
@@ -1009,6 +1188,8 @@ def gen_histories(depths, starts, alpha=None):
                             ok = False
                             break
                         nregs += 1
+                    elif op[0] == "edit":
+                        pass
                     elif op[1] >= nregs:
                         ok = False
                         break
@@ -1064,6 +1245,92 @@ def gen_frame_interleavings(depth):
                 prog.append(["add", 4, 0])
                 prog.append(["allnames", 5])
                 yield {"cols": st["cols"], "schemas": st["schemas"], "prog": prog}
+
+
+def gen_sum_forms():
+    """Every syntactic form of the sum (a + b, a.__add__(b), operator.add, a += b with the left operand still referenced
+    elsewhere, operator.iadd, type(a).__iadd__ when defined, functools.reduce over operator.add / operator.iadd,
+    sum([b], a), type(b).__radd__ when defined, a `total += part` fold) x every pair of schemas of <=2 columns over two
+    identities with shared objects, equal copies and a third identity; then the same form again with the *result* as the
+    left operand (a chain), the first operand once more, and a removal from the sum: after each step both operands must be
+    as they were (list object, content) and the result a new schema."""
+    table = [["i0", "a", None], ["i1", "b", None], ["i0", "a", ["b"]], ["i1", "b", ["a"]], ["i2", "a", []]]
+
+    def lists(pool, nmax):
+        for n in range(nmax + 1):
+            yield from itertools.product(pool, repeat=n)
+
+    for form in SUM_FORMS:
+        for a in lists([0, 1], 2):
+            for b in lists([0, 1, 2, 3, 4], 2):
+                prog = [["add", 0, 1, form], ["names", 0], ["names", 1], ["add", 2, 1, form], ["add", 0, 2, form], ["add", 1, 0, form], ["names", 0],
+                        ["allnames", 2], ["pop", 2, "a"], ["names", 0], ["names", 3], ["add", 0, 0, form]]
+                yield {"cols": table, "schemas": [["L", ["x"], list(a)], ["R", [], list(b)]], "prog": prog}
+    # two different forms one after the other on three schemas (a fold written one way, continued another way)
+    for f1 in SUM_FORMS:
+        for f2 in SUM_FORMS:
+            for a, b, c in (([0], [1], [4]), ([], [2, 1], [0, 4]), ([0, 1], [3], [])):
+                prog = [["add", 0, 1, f1], ["add", 3, 2, f2], ["names", 0], ["names", 3], ["add", 1, 2, f2], ["add", 0, 5, f1], ["names", 1], ["names", 4], ["names", 6]]
+                yield {"cols": table, "schemas": [["L", [], a], ["M", ["m"], b], ["R", [], c]], "prog": prog}
+
+
+def history_alphabet_forms():
+    """sums written every way, interleaved with lookups and removals on the operands and on the results"""
+    return [
+        ["find", 0, "a", False], ["pop", 0, "a"], ["pop", 2, "b"], ["pop", 1, "a"], ["names", 0], ["names", 2],
+        ["add", 0, 1, "+="], ["add", 1, 0, "__iadd__"], ["add", 2, 0, "+="], ["add", 2, 1, "reduce.iadd"], ["add", 0, 0, "operator.iadd"],
+        ["add", 0, 1, "fold+="], ["add", 0, 1, "__radd__"], ["add", 1, 0, "sum"], ["add", 0, 2, "__add__"],
+    ]
+
+
+EDIT_COLS = [["i0", "a", ["x"]], ["i1", "b", []], ["i2", "a", None]]
+
+
+def _edit_alphabet(full):
+    ed = []
+    for t in (0, 1):
+        ed += [["edit", t, "append", "y"], ["edit", t, "remove", "x"], ["edit", t, "setitem", "y"], ["edit", t, "replace", ["y"]], ["edit", t, "rename", "y"]]
+        if full:
+            ed += [["edit", t, "insert", "y"], ["edit", t, "delitem", None], ["edit", t, "clear", None], ["edit", t, "extend", ["y", "z"]],
+                   ["edit", t, "reverse", None], ["edit", t, "replace", None], ["edit", t, "rename", "b"], ["edit", t, "remove", "y"]]
+    ed += [["edit", 2, "replace", ["y"]], ["edit", 2, "rename", "y"]]
+    if full:
+        ed += [["edit", 2, "append", "y"], ["edit", 2, "replace", []]]
+    look = [["find", 0, "y", False], ["find", 0, "Y", True], ["allnames", 0], ["pop", 0, "a"], ["add", 0, 1]]
+    if full:
+        look += [["col", 0, "y"], ["find", 0, "x", False], ["find", 1, "y", False], ["pop", 0, "y"], ["add", 1, 0, "+="], ["find", 2, "y", False],
+                 ["mkiter", 0], ["next", 0]]
+    return ed + look
+
+
+def gen_alias_edits(depth_full, depth_small):
+    """In-place edits of column attributes between lookups.  Three column objects (aliases ['x'], [], None) listed by two
+    schemas (the second in another order: the objects are shared); every sequence of <= depth steps over: edit a column's
+    alias list in place (append, remove, insert, item assignment, del, clear, +=, reverse), replace it (another list,
+    None), rename the column; look a key up (exact, ignoring case, column()), list all names, remove a column, sum the two
+    schemas, obtain / advance an iterator -- once from a cold start and once after every column's names have been looked
+    at (a lookup of an absent key scans them all); at the end every key is looked up in both schemas and the names are
+    listed.  The reference reads the column's *current* name and aliases."""
+    final = []
+    for r in (0, 1):
+        for k in ("x", "y", "a", "b", "z"):
+            final += [["find", r, k, False], ["find", r, k.upper(), True]]
+        final += [["col", r, "y"], ["allnames", r], ["names", r]]
+    final.append(["iter", 0])
+    warmup = [["find", 0, "zz", False], ["find", 1, "ZZ", True], ["allnames", 0]]
+    schemas = [["L", [], [0, 1, 2]], ["R", [], [1, 0]]]
+    for full, depth in ((True, depth_full), (False, depth_small)):
+        alpha = _edit_alphabet(full)
+        for d in range(1, depth + 1):
+            if not full and d <= depth_full:
+                continue
+            for seq in itertools.product(alpha, repeat=d):
+                if not any(op[0] == "edit" for op in seq):
+                    continue
+                for warm in (False, True):
+                    c = {"cols": EDIT_COLS, "schemas": schemas, "prog": (warmup if warm else []) + [list(op) for op in seq] + final}
+                    if valid_case(c):
+                        yield c
 
 
 def history_alphabet_iter():
@@ -1241,10 +1508,31 @@ def random_case(ctx, big=False):
 
     niters = 0
     with_iters = rng.random() < 0.4
+    with_edits = ncols > 0 and rng.random() < 0.35
+    with_forms = rng.random() < 0.4
+    has_list = [c[2] is not None for c in cols]
     for _ in range(rng.randint(1, 12 if not big else 40)):
         r = rng.random()
         q = rng.randrange(n)
-        if with_iters and rng.random() < 0.3:
+        if with_edits and rng.random() < 0.25:
+            # the caller edits a column object between two operations
+            t = rng.randrange(ncols)
+            how = rng.choice(EDITS)
+            if how in EDITS_IN_PLACE and not has_list[t]:
+                how = "replace"
+            if how == "replace":
+                arg = None if rng.random() < 0.2 else [rng.choice(pool) for _ in range(rng.randint(0, 2))]
+                has_list[t] = arg is not None
+            elif how == "extend":
+                arg = [rng.choice(pool) for _ in range(rng.randint(0, 2))]
+            elif how in ("delitem", "clear", "reverse"):
+                arg = None
+            elif how == "remove" and cols[t][2] and rng.random() < 0.7:
+                arg = rng.choice(cols[t][2])
+            else:
+                arg = rng.choice(pool)
+            prog.append(["edit", t, how, arg])
+        elif with_iters and rng.random() < 0.3:
             # an iteration under way: obtain an iterator, advance one, drain one -- between the other operations
             if niters == 0 or rng.random() < 0.25:
                 prog.append(["mkiter", q])
@@ -1252,7 +1540,7 @@ def random_case(ctx, big=False):
             else:
                 prog.append([rng.choice(["next", "next", "next", "drain"]), rng.randrange(niters)])
         elif r < 0.2:
-            prog.append(["add", rng.randrange(n), rng.randrange(n)])
+            prog.append(["add", rng.randrange(n), rng.randrange(n)] + ([rng.choice(SUM_FORMS)] if with_forms else []))
             n += 1
         elif r < 0.4:
             prog.append(["find", q, key(), rng.random() < 0.5])
@@ -1449,6 +1737,19 @@ def run(ctx):
                   "every history of depth <=3 over %d operations (lookup, removals, sum, obtain / advance / drain an iterator) from %d starting "
                   "points: %d; of depth 4 from %d: %d" % (ITER_LAYOUTS, n, 4 if q else 5, "a,b,c" if q else "four layouts", n2,
                                                           len(history_alphabet_iter()), len(HISTORY_STARTS), n3, 1 if q else 4, n4))
+    n = evaluate_all(ctx, gen_alias_edits(2, 3 if q else 4))
+    scopes.append("column objects edited between lookups: three columns (aliases ['x'], [], None) shared by two schemas, every sequence of <=2 "
+                  "steps over %d operations (alias list edited in place: append, remove, insert, item assignment, del, clear, +=, reverse; "
+                  "replaced by a list / None; the column renamed; lookups exact / ignoring case / column(), all names, removal, sum, += , iterator) "
+                  "and of <=%d steps over %d of them, each from a cold start and after every column's names were looked at, every key looked up "
+                  "in both schemas at the end: %d programs" % (len(_edit_alphabet(True)), 3 if q else 4, len(_edit_alphabet(False)), n))
+    n = evaluate_all(ctx, gen_sum_forms())
+    n2 = evaluate_all(ctx, gen_histories(range(1, 4 if q else 5), HISTORY_STARTS, history_alphabet_forms()))
+    scopes.append("every syntactic form of the sum (%s; __iadd__ / __radd__ through the class when it defines them, a + b otherwise): every pair "
+                  "of schemas of <=2 columns over 2(+1) identities x every form, then the result as the left operand of the same form, the "
+                  "operand once more, a removal from the sum; every pair of forms on three schemas: %d programs; every history of depth <=%d over "
+                  "%d operations (lookups, removals, sums in eight forms on operands and results) from %d starting points: %d"
+                  % (", ".join(SUM_FORMS), n, 3 if q else 4, len(history_alphabet_forms()), len(HISTORY_STARTS), n2))
     n = evaluate_all(ctx, gen_union_pairs(3, 1, 3, 3))
     n2 = evaluate_all(ctx, gen_union_pairs(2, 2, 2 if q else 3, 2 if q else 3))
     scopes.append("every pair of schemas of <=3 columns over 3 identities (two objects each) and of <=%d columns over 2 identities x 2 names, "
